@@ -129,7 +129,7 @@ Print Assumptions C21_tagged_no_loss.
 Example C21_tagged_nonvacuous :
   let ths := [([OGet], []); ([OGet; OGet; OPut 0], [])] in
   wf_init 2 ths /\
-  let r := Conc.run 1000 0 ([0;0;0] ++ repeat 1 15 ++ repeat 0 9)%nat (tinit_cfg 50 2 ths) in
+  let r := Conc.run 1000 0 ([0;0;0]%nat ++ repeat 1%nat 15 ++ repeat 0%nat 9)%list (tinit_cfg 50 2 ths) in
   snd r = true /\ nowrap 2 (Conc.trace (fst r)) /\
   forallb (fun t => Z.eqb (opens t (Conc.trace (fst r))) 0) [0;1]%nat = true /\
   existsb (fun e => match e with (0%nat, EvAcc KCas _ false) => true | _ => false end) (Conc.trace (fst r)) = true /\
